@@ -3,7 +3,7 @@ PROPERTY = "C17"
 LEVEL = "model_checking"
 FUNCTIONS = ["batchie.sampling.sample (MCMC and VI branches)", "batchie.core.ThetaHolder.add_theta / is_complete"]
 BOUNDS = {
-    "quick": "full runs: every b<=6, t in 1..6, n in 1..6 (solver-enumerated); one-iteration lemma: arbitrary b>=0, t>=1, n>=1 and iteration index (unbounded integers); generator selection: arbitrary seed, n_chains, chain_index (unbounded); variational request: arbitrary n>=1 (unbounded); generator selection with the package's loggers at their default level and at DEBUG",
+    "quick": "full runs: every b<=6, t in 1..6, n in 1..6 (solver-enumerated); one-iteration lemma: arbitrary b>=0, t>=1, n>=1 and iteration index (unbounded integers); generator selection: arbitrary seed, n_chains, chain_index (unbounded); variational request: arbitrary n>=1 (unbounded); generator selection with the package's loggers at their default level and at DEBUG; the model stand-in holds 0, 1 or 2 observations (solver-chosen)",
     "thorough": "full runs: b<=16, t<=16, n<=16; lemmas unbounded",
 }
 ASSUMPTIONS = [
